@@ -7,12 +7,13 @@ CONSTANTS
   ImgLists <- Lists3x2
   PubPaths = {1, 2}
   MaxRuns = 2
-  Modes = {"auth"}
+  Modes = {"image"}
   Iters = {1, 2}
   OutPaths = {0, 1, 2}
   MaxSteps = 2
-  SizeClasses <- AllSizes
+  SizeClasses = {"small"}
   UnitLens <- UnitLensSmall
-  Variant = "ok"
-INVARIANT NeverReusesPath
+  Variant = "tailtwice"
+INVARIANT HashedLength
+INVARIANT HashInputOk
 CHECK_DEADLOCK FALSE
